@@ -30,7 +30,49 @@ Tie: B.  Four kinds of cases, all against the implementation imported in place:
 Property predicate (VIOLATION with the input as replay): wrong number of rows, a row whose content differs
 from the genome's singleton content, a label different from the stem / stored id where the specification
 fixes it.  A difference between model and implementation that leaves these true (e.g. the label of a name
-outside the specification's scope, an error class) is reported as a broken tie."""
+outside the specification's scope, an error class) is reported as a broken tie.
+
+Coverage audit (item of the property text -> stream that drives it ON THE IMPLEMENTATION; P = the property predicate is
+judged there, M = also compared with the model; streams marked + were added by the audit):
+
+  one row per input / input order / context-free   cli-exhaustive-orders, cli-random (P M); +cli-large-batch 24..40 inputs,
+                                                   +bundled-sigfile 50 inputs (P)
+  label = name minus directory and FASTA/gz ext.   label-exhaustive, label-structured (P M); cli-extensions, cli-random (P M)
+  label = stored id (signature file)               cli-* channel sig, string ids from `signatures create -i` (P M); +cli-sig-variants:
+                                                   INTEGER ids, ids derived from file names (no -i), files written through the
+                                                   Python API in 16/32/64-bit / signed, with metadata (P M); +bundled-sigfile: the
+                                                   repository's own query-signatures.gs (P, no model)
+  positional / list file + base dir / gzip         cli-* (P M): absolute, relative, './', '//' spellings; list decorations; +cli-flat-cwd:
+                                                   BARE names with the working directory = base directory (default --ldir, '.', './'),
+                                                   './name', names starting with '-' after '--' (P M); +list file on stdin (`-l -`)
+  genome classes                                   6 bundled query genomes; +cli-genome-classes: empty file, header only, no k-mer,
+                                                   a reference genome itself (distance 0), mixed into batches of all channels (P M)
+  alone or within any batch, any order, repeats    cli-exhaustive-orders, cli-random (same file twice, duplicate labels) (P M)
+  -c 1..16                                         cli-cores-progress: 1..4 quick, 1..16 thorough; +cli-cores-high: 16 and one of 5..15
+                                                   in the quick tier (P M)
+  any reference chunk size                         api-chunks (P M), only JSON / QueryParams(chunksize=int); +api-call-forms: random chunk
+                                                   sizes 1..nrefs+3 and 10**6, as NumPy integer, as keyword (params=None), positional
+                                                   QueryParams field (P M); the command line has no chunk-size option
+  progress on / off                                --progress / --no-progress (P M); +cli-call-forms: NO flag (default on); +cli-process-
+                                                   stdout: display on while the rows go to the standard output; +api: progress=
+                                                   'click' / class / ProgressConfig / False
+  output formats csv / json / archive              all cli streams (P M); +no -f (default csv); +api-call-forms: the three exporters
+  observe at `gambit -d DB query ...`              CliRunner with -d, -o FILE; +cli-call-forms: --db, --db=, GAMBIT_DB_PATH, long options,
+                                                   --opt=value, -oVALUE, options after / between the genomes, --strict / --no-strict
+                                                   (reference = singleton under the same flag); +cli-process-stdout: `python -m gambit`
+                                                   in its own process, rows on stdout (no -o)
+  Python entry points                              query_parse / query (api-chunks); +api-call-forms: inputs as str / tuple / QueryInput /
+                                                   SequenceFile / mixed / absent, file_labels absent, query signatures as list / tuple /
+                                                   SignatureList / SignatureArray / index view / file-backed HDF5 in u2/u4/u8, one
+                                                   QueryParams object and one parse_kw dict shared by two calls (both judged), genomes
+                                                   without k-mers (P M; labels judged only where the caller states them);
+                                                   get_sequence_files (files-random); +files-call-forms: str / tuple / PurePath arguments,
+                                                   list file as path, base directory as pathlib path, positional call (P M)
+  malformed                                        no input, chunk size <= 0, no queries; +malformed-channels: two channels at once
+                                                   (some named inputs would get no row), a signature file with no signature
+Not covered: non-UTF-8 file names and names ending in white space in a list file (outside the stated domain); non-native /
+non-contiguous signature arrays (C02/C15); completion orders of the process pool (C13); the terminal rendering of the
+progress display."""
 import csv
 import gc
 import glob
@@ -40,15 +82,26 @@ import itertools
 import json
 import os
 import pathlib
+import subprocess
+import sys
 import time
 
 PROP = 'C08'
 RULE = ('label: names dir+stem+ext+gz, exhaustively all token strings of length <= 4 over {x . .fa .gz .fasta /} '
         'plus structured names; non-trivial: the name has an extension to strip or a directory part.  '
-        'files: get_sequence_files on random positional lists / list-file texts; non-trivial: >= 2 entries.  '
+        'files: get_sequence_files on random positional lists / list-file texts, in several call forms (Path / str / tuple / '
+        'PurePath arguments, list file as handle or path, base directory as str or Path); non-trivial: >= 2 entries.  '
         'cli: batches x orders x channel (pos/list/sig) x name spelling x gzip x -c N x progress x format; '
-        'non-trivial: >= 2 inputs of >= 2 distinct genomes.  api: chunk sizes; non-trivial: >= 2 distinct '
-        'genomes and a chunk size smaller than the number of references')
+        'non-trivial: >= 2 inputs of >= 2 distinct genomes.  Added streams: cli-genome-classes (files without any k-mer, a '
+        'reference genome), cli-flat-cwd (bare names, working directory = base directory, "--"), cli-call-forms (long / '
+        '= / attached option spellings, option order, no -f, no progress flag, --db / environment, list on stdin, '
+        '--strict/--no-strict), cli-cores-high (-c 5..16 in the quick tier), cli-sig-variants (integer ids, ids from file '
+        'names, API-written files of other integer widths), cli-large-batch (24..40 inputs), cli-process-stdout (own process, '
+        'rows on stdout), bundled-sigfile (the repository\'s 50-signature file vs its 50 genome files; property predicate only, '
+        'no model).  api: chunk sizes; non-trivial: >= 2 distinct genomes and a chunk size smaller than the number of '
+        'references; api-call-forms: chunk size as int / NumPy integer / keyword / positional field, inputs and query '
+        'signatures in every accepted container, three exporters, progress arguments, shared QueryParams / parse_kw objects '
+        '(labels judged only where the caller states them).  malformed-channels: two input channels at once, empty signature file')
 TRUSTED = ['click (argument parsing, click.File / click.Path parameter types, CliRunner), concurrent.futures process '
            'pool, OpenMP and the progress meter are runtime: not modelled; the run checks that -c N and --progress '
            'leave the rows unchanged',
@@ -57,20 +110,23 @@ TRUSTED = ['click (argument parsing, click.File / click.Path parameter types, Cl
            'the content of a row is compared with the implementation\'s own singleton run of that genome '
            '(the property is relational); what the content should be is C03/C09/C10/C11',
            'csv / json modules to read the output back; gzip to produce compressed copies',
-           'gambit signatures create -d -i IDS to build the signature files (order of signatures: C13)']
+           'gambit signatures create -d -i IDS to build the signature files (order of signatures: C13); calc_file_signatures on a '
+           'single file + dump_signatures to build the API-written signature files and the query signatures of the api cases',
+           'subprocess / `python -m gambit` for the own-process cases; h5py to read the ids of the bundled signature file']
 ASSUMPTIONS = ['the distance between a query and a reference signature, the classification of a distance row and the '
                'signature computed from a file are functions of their arguments (theorems are polymorphic in them); '
                'no shared mutable state between rows',
                'the reference chunk size is None or positive (otherwise ValueError, modelled and tested)',
                'the signature file holds as many ids as signatures (C12/C20)',
                'files are not modified while a command runs; file names are valid UTF-8']
-CORRESPONDENCES = ['label', 'files', 'cli', 'api']
+CORRESPONDENCES = ['label', 'files', 'cli', 'api']      # + kind 'bundled': property predicate only, no model
 BATCH = 4000
 SHRINK = False    # cases are structured (inputs refer to genomes by index); generated smallest first
 
 FASTA_EXT = ['.fasta', '.fna', '.ffn', '.faa', '.frn', '.fa']
 ALL_EXT = ['.gz'] + FASTA_EXT
-NG = 6            # number of distinct base genomes
+NG = 6            # number of distinct base genomes (bundled query genomes)
+NGX = NG + 4      # + extra genomes: empty file, header only, no k-mer, a copy of a reference genome
 NREFS_MODEL = 5   # references in the wire instantiation of the model
 QERR = {1: 'NoQueries', 2: 'InputsMismatch', 3: 'ZipStrict', 4: 'BadChunkSize', 5: 'ShapeMismatch', 6: 'IndexErr',
         7: 'Uninit', 8: 'OutOfFuel', 9: 'UsageExclusive', 10: 'UsageRequired', 11: 'NoFiles'}
@@ -103,11 +159,19 @@ def setup(ctx):
 		raise RuntimeError('bundled query genomes not found under ' + _S['db'])
 	step = len(srcs) // NG
 	_S['genomes'] = [gzip.decompress(open(srcs[i * step], 'rb').read()) for i in range(NG)]
+	# extra input classes (indices NG ..): genomes without a single k-mer and a genome that IS a reference
+	refs = sorted(glob.glob(os.path.join(_S['db'], 'ref-genomes', '*.fasta')))
+	if not refs:
+		raise RuntimeError('bundled reference genomes not found under ' + _S['db'])
+	_S['genomes'] += [b'', b'>only a header line\n', b'>too short for any k-mer\nACGTAC\n', open(refs[len(refs) // 2], 'rb').read()]
+	assert len(_S['genomes']) == NGX
 	_S['ref'] = {}
 	_S['sigfiles'] = {}
+	_S['sigs'] = {}
 	_S['n'] = 0
 	os.makedirs(os.path.join(root, 'g0'), exist_ok=True)
 	os.makedirs(os.path.join(root, 'wd'), exist_ok=True)      # working directory of the cli runs: NOT the base directory
+	os.makedirs(os.path.join(root, 'flat'), exist_ok=True)    # ... except for the 'flat' cases: bare names in the working directory
 
 
 def teardown(ctx):
@@ -126,24 +190,32 @@ def _name(inp):
 	return inp['stem'] + inp['ext'] + ('.gz' if inp['gz'] else '')
 
 
-def _relpath(inp):
+def _relpath(inp, flat=False):
 	"""path of the input's file relative to the scratch root (the harness's own naming scheme)"""
+	if flat:
+		return 'flat/' + _name(inp)
 	parts = [f'g{inp["g"]}'] + ([inp['dir']] if inp['dir'] else []) + [_name(inp)]
 	return '/'.join(parts)
 
 
-def _materialise(inp):
-	rel = _relpath(inp)
+def _materialise(inp, flat=False):
+	rel = _relpath(inp, flat)
 	path = os.path.join(_S['root'], rel)
+	data = _S['genomes'][inp['g']]
 	if not os.path.exists(path):
 		os.makedirs(os.path.dirname(path), exist_ok=True)
-		data = _S['genomes'][inp['g']]
 		with open(path, 'wb') as f:
 			f.write(gzip.compress(data, mtime=0) if inp['gz'] else data)
+	elif flat:
+		# one directory for all genomes: the generator has to keep the names of different genomes apart
+		with open(path, 'rb') as f:
+			have = f.read()
+		if (gzip.decompress(have) if inp['gz'] else have) != data:
+			raise RuntimeError(f'harness error: flat name {_name(inp)!r} used for two genomes')
 	return rel
 
 
-def _invoke(args):
+def _invoke(args, db='short', stdin=None):
 	from click.testing import CliRunner
 	import gambit.cli
 	# Every invocation opens its own SQLite connection and leaves it to the garbage collector.  With -c N the
@@ -152,8 +224,9 @@ def _invoke(args):
 	# run, explicit collection in this thread after each one.
 	was = gc.isenabled()
 	gc.disable()
+	pre, env = _db_args(db)
 	try:
-		res = CliRunner().invoke(gambit.cli.cli, ['-d', _S['db']] + args)
+		res = CliRunner(env=env).invoke(gambit.cli.cli, pre + args, input=stdin)
 	finally:
 		gc.collect()
 		if was:
@@ -163,6 +236,60 @@ def _invoke(args):
 	e = res.exception
 	return f'{type(e).__name__}({e})' if e is not None and not isinstance(e, SystemExit) else \
 		f'exit{res.exit_code}: {(res.output or "").strip()[-160:]}'
+
+
+def _db_args(db):
+	"""how the database directory reaches the command: -d DB | --db DB | --db=DB | environment variable"""
+	if db == 'short':
+		return ['-d', _S['db']], None
+	if db == 'long':
+		return ['--db', _S['db']], None
+	if db == 'eq':
+		return ['--db=' + _S['db']], None
+	if db == 'env':
+		return [], {'GAMBIT_DB_PATH': _S['db']}
+	raise ValueError(db)
+
+
+def _invoke_proc(args, db='short', stdin=None):
+	"""the command in a process of its own (`python -m gambit ...`); -> (error or None, what it wrote to stdout)"""
+	pre, env = _db_args(db)
+	e = dict(os.environ)
+	e.pop('GAMBIT_DB_PATH', None)
+	e.update(env or {})
+	p = subprocess.run([sys.executable, '-m', 'gambit'] + pre + args, input=(stdin or '').encode('utf-8'), stdout=subprocess.PIPE,
+	                   stderr=subprocess.PIPE, env=e, timeout=300)
+	if p.returncode != 0:
+		return f'exit{p.returncode}: {p.stderr.decode("utf-8", "replace").strip()[-160:]}', None
+	return None, p.stdout.decode('utf-8')
+
+
+LONG_OPT = {'-o': '--output', '-f': '--outfmt', '-c': '--cores', '-s': '--sigfile', '-l': None, '--ldir': '--ldir'}
+
+
+def _respell(tokens, style):
+	"""the same options written another way: 'short' (-o X) | 'long' (--output X) | 'eq' (--output=X) | 'attached' (-oX).
+	`tokens` holds options (with their value as the next token) first, then the positional arguments."""
+	if style == 'short':
+		return list(tokens)
+	out, n = [], 0
+	while n < len(tokens):
+		t = tokens[n]
+		if t not in LONG_OPT:
+			out.append(t)
+			n += 1
+			continue
+		v, long = tokens[n + 1], LONG_OPT[t]
+		n += 2
+		if style == 'long':
+			out += [long or t, v]
+		elif style == 'eq':
+			out += [long + '=' + v] if long else [t, v]
+		elif style == 'attached':
+			out += [t + v] if not t.startswith('--') else [t, v]
+		else:
+			raise ValueError(style)
+	return out
 
 
 def _sort_closest(lst):
@@ -192,28 +319,103 @@ def _rows(fmt, text):
 	return out
 
 
-def _run_query(fmt, args):
-	"""-> ('ok', rows) | ('error', text)"""
-	out = _tmp('.' + fmt)
-	err = _invoke(['query', '-o', out, '-f', fmt] + args)
+def _run_query(fmt, args, npos=0, call=None, stdin=None):
+	"""-> ('ok', rows) | ('error', text).  `args`: options (each followed by its value), then `npos` positional arguments.
+	`call` (all optional) says how the command line is written and where the output goes:
+	  spell     short | long | eq | attached       option spellings
+	  order     first | last | split                options before / after / around the positional arguments
+	  ddash     '--' before the positional arguments
+	  omit_fmt  no -f at all (the default format has to be csv)
+	  db        short | long | eq | env             how the database directory is given
+	  proc      run `python -m gambit` in a process of its own and take the rows from its standard output (no -o)"""
+	call = call or {}
+	proc = bool(call.get('proc'))
+	out = None if proc else _tmp('.' + fmt)
+	opts, pos = list(args[:len(args) - npos]), list(args[len(args) - npos:])
+	opts = ([] if proc else ['-o', out]) + ([] if call.get('omit_fmt') else ['-f', fmt]) + opts
+	opts = _respell(opts, call.get('spell', 'short'))
+	if call.get('ddash'):
+		pos = ['--'] + pos
+	order = call.get('order', 'first')
+	if order == 'first' or call.get('ddash'):
+		argv = opts + pos
+	elif order == 'last':
+		argv = pos + opts
+	else:
+		h = len(pos) // 2
+		argv = pos[:h] + opts + pos[h:]
+	if proc:
+		err, text = _invoke_proc(['query'] + argv, call.get('db', 'short'), stdin)
+	else:
+		err = _invoke(['query'] + argv, call.get('db', 'short'), stdin)
 	if err is not None:
 		return ('error', err)
-	with open(out) as f:
-		text = f.read()
-	os.remove(out)
-	return ('ok', _rows(fmt, text))
+	if not proc:
+		with open(out) as f:
+			text = f.read()
+		os.remove(out)
+	try:
+		return ('ok', _rows(fmt, text))
+	except Exception as e:
+		return ('error', f'output is not readable as {fmt}: {type(e).__name__}({e}): {text[:200]!r}')
 
 
-def _reference(g, fmt):
+def _reference(g, fmt, strict=False):
 	"""content of the singleton run of genome g: one positional plain FASTA file, default options"""
-	key = (g, fmt)
+	key = (g, fmt, bool(strict))
 	if key not in _S['ref']:
 		rel = _materialise(dict(g=g, dir='ref', stem=f'genome{g}', ext='.fasta', gz=False))
-		r = _run_query(fmt, ['--no-progress', os.path.join(_S['root'], rel)])
+		r = _run_query(fmt, ['--no-progress'] + (['--strict'] if strict else []) + [os.path.join(_S['root'], rel)], 1)
 		if r[0] != 'ok' or len(r[1]) != 1:
 			raise RuntimeError(f'singleton reference run failed for genome {g}: {r}')
 		_S['ref'][key] = r[1][0][2]
 	return _S['ref'][key]
+
+
+def _genome_sig(g):
+	"""signature of genome g (computed once, alone, by the implementation; only used to BUILD inputs: signature files and
+	the query signatures of the api cases)"""
+	if g not in _S['sigs']:
+		import numpy as np
+		from gambit.seq import SequenceFile
+		from gambit.sigs.calc import calc_file_signatures
+		path = os.path.join(_S['root'], _materialise(dict(g=g, dir='ref', stem=f'genome{g}', ext='.fasta', gz=False)))
+		sigs = calc_file_signatures(_db().signatures.kmerspec, SequenceFile.from_paths([path], 'fasta', 'auto'))
+		_S['sigs'][g] = np.array(sigs[0])
+	return _S['sigs'][g]
+
+
+def _sigfile_api(gs, ids, sig):
+	"""signature file written through the Python API: ids of another type, another integer width, metadata or not"""
+	key = json.dumps([gs, ids, sig], sort_keys=True)
+	if key not in _S['sigfiles']:
+		import numpy as np
+		from gambit.sigs import SignatureArray, SignaturesMeta, AnnotatedSignatures, dump_signatures
+		kspec = _db().signatures.kmerspec
+		arr = SignatureArray([_genome_sig(g) for g in gs], kspec, dtype=np.dtype(sig.get('dtype', 'u8')))
+		if sig.get('idkind') == 'int':
+			idarr = np.array([int(i) for i in ids], dtype=np.int64)
+		else:
+			idarr = np.array([str(i) for i in ids], dtype=object) if ids else np.array([], dtype=object)
+		meta = SignaturesMeta(id='harness', name='made by harness/c08.py', version='1.0', id_attr='key', description='d') \
+			if sig.get('meta') else SignaturesMeta()
+		path = _tmp('.gs')
+		dump_signatures(path, AnnotatedSignatures(arr, idarr, meta), 'hdf5')
+		_S['sigfiles'][key] = path
+	return _S['sigfiles'][key]
+
+
+def _sigfile_noids(gs):
+	"""signature file made by `gambit signatures create` WITHOUT -i: the stored ids are derived from the file names"""
+	key = json.dumps(['noids', gs])
+	if key not in _S['sigfiles']:
+		path = _tmp('.gs')
+		files = [os.path.join(_S['root'], _materialise(dict(g=g, dir='ref', stem=f'genome{g}', ext='.fasta', gz=False))) for g in gs]
+		err = _invoke(['signatures', 'create', '-d', '-o', path, '--no-progress'] + files)
+		if err is not None:
+			raise RuntimeError('could not build signature file: ' + err)
+		_S['sigfiles'][key] = path
+	return _S['sigfiles'][key]
 
 
 def _sigfile(gs, ids):
@@ -296,13 +498,23 @@ def k_files(ctx, cases):
 				spec_lines = [x.strip() for x in f.read().split('\n') if x.strip()]
 			# the property: every non-blank line names a file below the base directory
 			spec_files = [str(pathlib.PurePosixPath(c['ldir']) / x) for x in spec_lines]
-			lf = open(path, 'r')          # what click.File('r') hands to the command
+			# what click.File('r') hands to the command; or (call forms of the Python API) the path of the list file itself
+			lf_as = c.get('lf_as', 'handle')
+			lf = open(path, 'r') if lf_as == 'handle' else (path if lf_as == 'str' else pathlib.Path(path))
+		# call forms: the explicit paths as pathlib paths (what click hands over) / plain strings / a tuple / an iterator-free list
+		ex_as = c.get('explicit_as', 'Path')
+		ex = [pathlib.Path(x) if ex_as in ('Path', 'tuple') else (pathlib.PurePosixPath(x) if ex_as == 'PurePath' else x) for x in c['explicit']]
+		ex = (tuple(ex) if ex_as == 'tuple' else ex) or None
+		ldir = pathlib.Path(c['ldir']) if c.get('ldir_as') == 'Path' else c['ldir']
 		try:
-			ids, files = common.get_sequence_files([pathlib.Path(x) for x in c['explicit']] or None, lf, c['ldir'],
-			                                       strip_dir=c['strip_dir'], strip_ext=c['strip_ext'])
+			if c.get('positional_call'):
+				ids, files = common.get_sequence_files(ex, lf, ldir, c['strip_dir'], c['strip_ext'])
+			else:
+				ids, files = common.get_sequence_files(ex, lf, ldir, strip_dir=c['strip_dir'], strip_ext=c['strip_ext'])
 		finally:
 			if lf is not None:
-				lf.close()
+				if hasattr(lf, 'close'):
+					lf.close()
 				os.remove(path)
 		impl = None if ids is None else [list(ids), [str(f.path) for f in files]]
 		ok = impl is None or (len(impl[0]) == len(impl[1]))
@@ -341,66 +553,115 @@ def _spell(rel, form):
 		return '../' + rel
 	if form == 'reldot':
 		return './../' + rel
+	if form == 'bare':               # flat cases: the working directory holds the file
+		return rel.split('/', 1)[1]
+	if form == 'dotbare':
+		return './' + rel.split('/', 1)[1]
 	raise ValueError(form)
 
 
+def _list_text(lines, lf):
+	eol = lf.get('eol', '\n')
+	text = ''
+	for n, line in enumerate(lines):
+		if lf.get('blanks') and n % 2 == 1:
+			text += eol + '  ' + eol
+		last = n == len(lines) - 1
+		text += lf.get('lpad', '') + line + lf.get('rpad', '') + ('' if (last and not lf.get('final_eol', True)) else eol)
+	if not lines:
+		text = eol + ' \t' + eol
+	return text
+
+
 def _cli_plan(c):
-	"""-> (command-line arguments after the options, model request parts, expected stems or None per input)"""
+	"""-> (options with values + positional arguments, number of positional arguments, model request, text for stdin or None)"""
 	root = _S['root']
 	inputs = c['inputs']
-	rels = [_materialise(i) for i in inputs]
+	flat = bool(c.get('flat'))
+	rels = [_materialise(i, flat) for i in inputs]
 	table = []
 	files_arg, listfile, ldir_model, sigfile = [], None, '.', None
-	args = []
+	args, npos, stdin = [], 0, None
 	if c['channel'] == 'pos':
-		files_arg = [_spell(r, c.get('form', 'abs')) for r in rels]
+		files_arg = [_spell(r, c.get('form', 'bare' if flat else 'abs')) for r in rels]
 		args = list(files_arg)
+		npos = len(args)
 		table = [[S(str(pathlib.PurePosixPath(a))), i['g']] for a, i in zip(files_arg, inputs)]
 	elif c['channel'] == 'list':
 		lf = c['lf']
-		ldir = {'abs': root, 'slash': root + '/', 'default': None, 'rel': '..', 'sub': root + '/g0/..'}[lf['ldir']]
+		if flat:
+			ldir = {'default': None, 'dot': '.', 'abs': root + '/flat', 'dotslash': './'}[lf['ldir']]
+		else:
+			ldir = {'abs': root, 'slash': root + '/', 'default': None, 'rel': '..', 'sub': root + '/g0/..'}[lf['ldir']]
 		lines = []
 		for r, i in zip(rels, inputs):
-			# with the default base directory '.' (= root/wd) the lines have to climb out of it
-			line = (root + '/' + r) if lf.get('abs_lines') else (('../' + r) if ldir is None else r)
+			if flat:
+				line = (root + '/' + r) if lf.get('abs_lines') else r.split('/', 1)[1]
+			else:
+				# with the default base directory '.' (= root/wd) the lines have to climb out of it
+				line = (root + '/' + r) if lf.get('abs_lines') else (('../' + r) if ldir is None else r)
 			lines.append(line)
 			table.append([S(str(pathlib.PurePosixPath(ldir if ldir is not None else '.') / line)), i['g']])
-		eol = lf.get('eol', '\n')
-		text = ''
-		for n, line in enumerate(lines):
-			if lf.get('blanks') and n % 2 == 1:
-				text += eol + '  ' + eol
-			last = n == len(lines) - 1
-			text += lf.get('lpad', '') + line + lf.get('rpad', '') + ('' if (last and not lf.get('final_eol', True)) else eol)
-		if not lines:
-			text = eol + ' \t' + eol
-		path = _tmp('.list')
-		with open(path, 'wb') as f:
-			f.write(text.encode('utf-8'))
+		text = _list_text(lines, lf)
+		if c.get('stdin_list'):
+			path, stdin = '-', text           # click.File('r') reads '-' from the standard input
+		else:
+			path = _tmp('.list')
+			with open(path, 'wb') as f:
+				f.write(text.encode('utf-8'))
 		args = ['-l', path] + (['--ldir', ldir] if ldir is not None else [])
 		listfile = text
 		ldir_model = ldir if ldir is not None else '.'
 	else:
 		ids = c['ids']
 		gs = [i['g'] for i in inputs]
-		args = ['-s', _sigfile(gs, ids)]
-		sigfile = [[S(x) for x in ids], gs]
+		sig = c.get('sig')
+		if sig is None:
+			path = _sigfile(gs, ids)
+		elif sig['how'] == 'api':
+			path = _sigfile_api(gs, ids, sig)
+		elif sig['how'] == 'noids':
+			path = _sigfile_noids(gs)
+		else:
+			raise ValueError(sig)
+		args = ['-s', path]
+		sigfile = [[S(str(x)) for x in ids], gs]
+	# ---- malformed: a second input channel on the same command line (the channels are mutually exclusive)
+	if c.get('also_sig'):
+		a = c['also_sig']
+		args = ['-s', _sigfile(a['gs'], a['ids'])] + args
+		sigfile = [[S(x) for x in a['ids']], a['gs']]
+	if c.get('also_list'):
+		lines = [root + '/' + r for r in rels]
+		text = _list_text(lines, {})
+		path = _tmp('.list')
+		with open(path, 'wb') as f:
+			f.write(text.encode('utf-8'))
+		args = ['-l', path] + args
+		listfile = text
+		table = table + [[S(str(pathlib.PurePosixPath('.') / line)), i['g']] for line, i in zip(lines, inputs)]
 	req = [[c.get('chunksize_model', 1000)], [S(a) for a in files_arg], None if listfile is None else [S(listfile)], S(ldir_model),
 	       None if sigfile is None else [sigfile], table, NREFS_MODEL]
-	return args, req
+	return args, npos, req, stdin
 
 
 def _stem_expected(c, n):
 	"""the label the SPECIFICATION fixes for input n, or None if it leaves it to the algorithm"""
 	if c['channel'] == 'sig':
-		return c['ids'][n]
+		return c['ids'][n]      # (integer ids: compared as their decimal strings, see _lab)
 	i = c['inputs'][n]
 	spec = dict(dir='', stem=i['stem'], ext=i['ext'], gz='.gz' if i['gz'] else '')
 	return i['stem'] if _in_label_spec(spec) else None
 
 
+def _lab(c, x):
+	"""canonical form of a label: a signature file may store integer ids; csv then shows the decimal string, json the number"""
+	if (c.get('sig') or {}).get('idkind') == 'int' and isinstance(x, int) and not isinstance(x, bool):
+		return str(x)
+	return x
+
+
 def k_cli(ctx, cases):
-	os.chdir(os.path.join(_S['root'], 'wd'))
 	try:
 		_k_cli(ctx, cases)
 	finally:
@@ -409,15 +670,24 @@ def k_cli(ctx, cases):
 
 def _k_cli(ctx, cases):
 	plans = [_cli_plan(c) for c in cases]
-	ans = ctx.model([(807, p[1]) for p in plans]) if ctx.model_ok else None
+	ans = ctx.model([(807, p[2]) for p in plans]) if ctx.model_ok else None
 	for j, c in enumerate(cases):
-		args, _ = plans[j]
+		args, npos, _, stdin = plans[j]
 		fmt = c.get('fmt', 'csv')
-		opts = ['--progress' if c.get('progress') else '--no-progress']
+		call = c.get('call') or {}
+		strict = c.get('strict')          # None: option absent | True: --strict | False: --no-strict
+		# progress: True / False as flags; 'default': no flag at all (the default is to show it)
+		opts = [] if c.get('progress') == 'default' else ['--progress' if c.get('progress') else '--no-progress']
+		if strict is not None:
+			opts += ['--strict' if strict else '--no-strict']
 		if c.get('cores') is not None:
 			opts += ['-c', str(c['cores'])]
-		obs = _run_query(fmt, opts + args)
+		# the working directory is NOT the base directory of the list files, except in the 'flat' cases (bare names)
+		os.chdir(os.path.join(_S['root'], 'flat' if c.get('flat') else 'wd'))
+		obs = _run_query(fmt, opts + args, npos, call, stdin)
 		gs = [i['g'] for i in c['inputs']]
+		if obs[0] == 'ok':
+			obs = ('ok', [(_lab(c, r[0]), r[1], r[2]) for r in obs[1]])
 		ctx.case(c, nontrivial=len(gs) >= 2 and len(set(gs)) >= 2, stream=None)
 		ctx.count('cli:' + c['channel'])
 		if len(gs) >= 3 and len(_S.setdefault('samples', [])) < 3 and c['channel'] not in [x['channel'] for x in _S['samples']]:
@@ -453,14 +723,14 @@ def _k_cli(ctx, cases):
 			bad = f'{len(gs)} inputs gave {len(rows)} rows'
 		else:
 			for n, (g, row) in enumerate(zip(gs, rows)):
-				ref = _reference(g, fmt)
+				ref = _reference(g, fmt, strict)
 				if row[2] != ref:
-					other = [h for h in range(NG) if _reference(h, fmt) == row[2]]
+					other = [h for h in range(NG) if _reference(h, fmt, strict) == row[2]]
 					bad = (f'row {n} (input {c["inputs"][n]}) does not have the content of that genome queried alone'
 					       + (f'; it has the content of genome {other[0]}' if other else ''))
 					break
 				want = _stem_expected(c, n)
-				if want is not None and row[0] != want:
+				if want is not None and row[0] != _lab(c, want):
 					bad = f'row {n} is labelled {row[0]!r}, expected {want!r}'
 					break
 		if bad:
@@ -493,32 +763,126 @@ def _db():
 	return _S['dbobj']
 
 
-def k_api(ctx, cases):
-	from gambit.query import query_parse, query, QueryParams
-	from gambit.results import JSONResultsExporter
+def _api_queries(c, gs):
+	"""the query signatures of an api case in the container / integer width the case asks for"""
+	import numpy as np
+	from gambit.sigs import SignatureArray, SignatureList, load_signatures
+	kspec = _db().signatures.kmerspec
+	cont = c.get('container', 'calc')
+	dt = np.dtype(c['dtype']) if 'dtype' in c else _genome_sig(0).dtype
+	arrs = [_genome_sig(g).astype(dt) for g in gs]
+	if cont == 'pylist':
+		return arrs
+	if cont == 'tuple':
+		return tuple(arrs)
+	if cont == 'SignatureList':
+		return SignatureList(arrs, kspec, dtype=dt)
+	if cont == 'SignatureArray':
+		return SignatureArray(arrs, kspec, dtype=dt)
+	if cont == 'view':                   # rows of a larger array picked by an index list (not a copy made for this call)
+		big = SignatureArray([_genome_sig(g).astype(dt) for g in range(NGX)], kspec, dtype=dt)
+		return big[list(gs)]
+	if cont == 'hdf5':                   # file-backed collection, as `query -s` passes it on
+		return load_signatures(_sigfile_api(list(gs), [f'h{n}' for n in range(len(gs))], dict(how='api', dtype=dt.str.lstrip('<>=|'), meta=True)))
+	raise ValueError(cont)
+
+
+def _api_call(c, gs, labels, state):
+	"""one call of query / query_parse in the call form the case asks for -> QueryResults"""
+	import numpy as np
+	from gambit.query import query_parse, query, QueryParams, QueryInput
 	from gambit.seq import SequenceFile
 	from gambit.sigs.calc import calc_file_signatures
+	db = _db()
+	paths = [os.path.join(_S['root'], _materialise(dict(g=g, dir='ref', stem=f'genome{g}', ext='.fasta', gz=False))) for g in gs]
+	files = SequenceFile.from_paths(paths, 'fasta', 'auto')
+	cs = c['chunksize']
+	cs_as = c.get('cs_as', 'int')
+	if cs_as == 'np' and cs is not None:
+		cs = np.int64(cs)
+	if cs_as == 'kw':                     # params=None, the chunk size as a keyword argument
+		params, kw = None, dict(chunksize=cs)
+	elif cs_as == 'positional':           # QueryParams(False, cs) instead of QueryParams(chunksize=cs)
+		params, kw = QueryParams(False, cs), {}
+	else:
+		params, kw = state.setdefault('params', QueryParams(chunksize=cs)) if c.get('reuse') else QueryParams(chunksize=cs), {}
+	if c.get('progress') is not None:
+		kw['progress'] = _progress_arg(c['progress'])
+	ia = c.get('inputs_as', 'str')
+	if c['via'] == 'parse':
+		if ia == 'none':
+			fl = {}
+		else:
+			fl = dict(file_labels=tuple(labels) if ia == 'tuple' else list(labels))
+		if c.get('reuse'):
+			kw['parse_kw'] = state.setdefault('parse_kw', {})      # the caller's own dict, handed in again on the next call
+		return query_parse(db, files, params, **fl, **kw)
+	if 'container' in c or 'dtype' in c:
+		sigs = _api_queries(c, gs)
+	else:
+		sigs = calc_file_signatures(db.signatures.kmerspec, files)
+	if ia == 'none':
+		inp = {}
+	elif ia == 'QueryInput':
+		inp = dict(inputs=[QueryInput(l, f) for l, f in zip(labels, files)])
+	elif ia == 'SequenceFile':
+		inp = dict(inputs=files)
+	elif ia == 'mixed':
+		inp = dict(inputs=[(l, QueryInput(l), QueryInput(l, f))[n % 3] for n, (l, f) in enumerate(zip(labels, files))])
+	elif ia == 'tuple':
+		inp = dict(inputs=tuple(labels))
+	else:
+		inp = dict(inputs=labels)
+	return query(db, sigs, params, **inp, **kw)
+
+
+def _progress_arg(how):
+	"""the forms of the `progress` argument: a registry key / a class / a ProgressConfig / False (the click meter writes to a
+	buffer, not to the terminal)"""
+	from gambit.util.progress import TestProgressMeter, ClickProgressMeter, progress_config
+	if how == 'click':
+		return progress_config('click', file=io.StringIO())
+	if how == 'config':
+		return ClickProgressMeter.config(file=io.StringIO())
+	if how == 'test':
+		return TestProgressMeter
+	if how == 'false':
+		return False
+	raise ValueError(how)
+
+
+def _api_export(fmt, res):
+	from gambit.results import JSONResultsExporter, CSVResultsExporter, ResultsArchiveWriter
+	buf = io.StringIO()
+	{'json': JSONResultsExporter, 'csv': CSVResultsExporter, 'archive': ResultsArchiveWriter}[fmt]().export(buf, res)
+	return _rows(fmt, buf.getvalue())
+
+
+def k_api(ctx, cases):
+	# the Python API has no thread-count argument; an earlier `query -c 16` in this process would leave 16 OpenMP threads
+	# behind, which makes the many small distance calls of small chunk sizes very slow on a shared machine
+	from gambit._cython.threads import omp_set_num_threads
+	omp_set_num_threads(1)
 	db = _db()
 	nrefs = len(db.genomes)
 	reqs = [(809, [None if c['chunksize'] is None else [c['chunksize']], c['gs'], NREFS_MODEL, len(c['gs'])]) for c in cases]
 	ans = ctx.model(reqs) if ctx.model_ok else None
 	for j, c in enumerate(cases):
 		gs = c['gs']
-		paths = [os.path.join(_S['root'], _materialise(dict(g=g, dir='ref', stem=f'genome{g}', ext='.fasta', gz=False))) for g in gs]
-		files = SequenceFile.from_paths(paths, 'fasta', 'auto')
 		labels = [f'in{n}' for n in range(len(gs))]
-		params = QueryParams(chunksize=c['chunksize'])
+		fmt = c.get('export', 'json')
+		ia = c.get('inputs_as', 'str')
+		state = {}
+		first = None
 		try:
-			if c['via'] == 'parse':
-				res = query_parse(db, files, params, file_labels=labels)
-			else:
-				sigs = calc_file_signatures(db.signatures.kmerspec, files)
-				res = query(db, sigs, params, inputs=labels)
-			buf = io.StringIO()
-			JSONResultsExporter().export(buf, res)
-			obs = ('ok', _rows('json', buf.getvalue()))
+			if c.get('reuse'):
+				# the same QueryParams object / parse_kw dict serve a call on another batch first: the rows of the second
+				# call must not depend on it (and the first call is judged as well)
+				g1 = list(reversed(gs)) + gs[:1]
+				first = (g1, _api_export(fmt, _api_call(c, g1, [f'first{n}' for n in range(len(g1))], state)))
+			obs = ('ok', _api_export(fmt, _api_call(c, gs, labels, state)))
 		except Exception as e:
-			obs = ('error', type(e).__name__)
+			obs = ('error', type(e).__name__ + (f'({e})' if 'container' in c or 'inputs_as' in c or 'cs_as' in c else ''))
 		cs = c['chunksize']
 		ctx.case(c, nontrivial=len(set(gs)) >= 2 and cs is not None and 0 < cs < nrefs)
 		m = None
@@ -535,22 +899,89 @@ def k_api(ctx, cases):
 				ctx.broke('correspondence api (implementation raises, model answers)', f'case {c}: impl={obs}')
 			continue
 		bad = None
+		# the label is judged where the caller states it (strings / QueryInput objects); the default labels ('1', '2', ... and
+		# the file path) are not part of the property
+		judged = ia in ('str', 'QueryInput', 'mixed', 'tuple')
 		if obs[0] != 'ok':
 			bad = f'raised {obs[1]}'
-		elif len(obs[1]) != len(gs):
-			bad = f'{len(gs)} inputs gave {len(obs[1])} rows'
 		else:
-			for n, (g, row) in enumerate(zip(gs, obs[1])):
-				if row[2] != _reference(g, 'json'):
-					bad = f'row {n} (genome {g}) differs from that genome queried alone with the default chunk size'
+			batches = [('', gs, obs[1], labels)]
+			if first:
+				batches.insert(0, ('first call with the shared objects: ', first[0], first[1], [f'first{n}' for n in range(len(first[0]))]))
+			for what, bg, brows, blabels in batches:
+				if bad:
 					break
-				if row[0] != labels[n]:
-					bad = f'row {n} is labelled {row[0]!r}, expected {labels[n]!r}'
+				if len(brows) != len(bg):
+					bad = f'{what}{len(bg)} inputs gave {len(brows)} rows'
 					break
+				for n, (g, row) in enumerate(zip(bg, brows)):
+					if row[2] != _reference(g, fmt):
+						bad = f'{what}row {n} (genome {g}) differs from that genome queried alone with the default chunk size'
+						break
+					if judged and row[0] != blabels[n]:
+						bad = f'{what}row {n} is labelled {row[0]!r}, expected {blabels[n]!r}'
+						break
 		if bad:
 			ctx.violation('api', c, f'{c["via"]} chunksize={cs}: {bad}', impl=obs if obs[0] != 'ok' else [r[0] for r in obs[1]], model=m)
 		elif m is not None and m[0] != 'ok':
 			ctx.broke('correspondence api (model fails, implementation answers)', f'case {c}: model={m}')
+
+
+# ------------------------------------------------------------------------------------------------
+# kind: bundled -- the repository's own pre-computed query signature file and the 50 genomes it was made from
+# ------------------------------------------------------------------------------------------------
+
+def _bundled_ids():
+	"""the ids stored in tests/data/testdb_210818/queries/query-signatures.gs, read with h5py (not through gambit)"""
+	if 'bundled_ids' not in _S:
+		import h5py
+		with h5py.File(os.path.join(_S['db'], 'queries', 'query-signatures.gs'), 'r') as f:
+			_S['bundled_ids'] = [x.decode('utf-8') if isinstance(x, bytes) else str(x) for x in f['ids'][:]]
+	return _S['bundled_ids']
+
+
+def k_bundled(ctx, cases):
+	"""No model comparison here (the files are not harness-made): property predicate only."""
+	ids = _bundled_ids()
+	gdir = os.path.join(_S['db'], 'queries', 'genomes')
+	sigpath = os.path.join(_S['db'], 'queries', 'query-signatures.gs')
+	os.chdir(os.path.join(_S['root'], 'wd'))
+	try:
+		for c in cases:
+			fmt, perm = c['fmt'], c['perm']
+			opts = ['--progress' if c.get('progress') else '--no-progress'] + (['-c', str(c['cores'])] if c.get('cores') else [])
+			files = [os.path.join(gdir, ids[i] + ('.fasta.gz' if (i + n) % 2 else '.fasta')) for n, i in enumerate(perm)]
+			files = [f if os.path.exists(f) else f + '.gz' for f in files]       # (a checkout may hold the compressed copies only)
+			sig = _run_query(fmt, opts + ['-s', sigpath])
+			pos = _run_query(fmt, opts + files, len(files))
+			ctx.case(c, nontrivial=len(perm) >= 2)
+			bad = None
+			if sig[0] != 'ok':
+				bad = f'query -s of the bundled signature file failed: {sig[1]}'
+			elif pos[0] != 'ok':
+				bad = f'positional query of {len(files)} bundled genomes failed: {pos[1]}'
+			elif [r[0] for r in sig[1]] != ids:
+				bad = f'signature file: the labels are not the {len(ids)} stored ids in stored order: {[r[0] for r in sig[1]][:8]}...'
+			elif [r[0] for r in pos[1]] != [ids[i] for i in perm]:
+				bad = f'positional: the labels are not the file names without directory and extensions, in input order: {[r[0] for r in pos[1]][:8]}...'
+			else:
+				for n, i in enumerate(perm):
+					if pos[1][n][2] != sig[1][i][2]:
+						bad = f'row {n} of the positional run (genome {ids[i]}) differs from row {i} of the signature-file run'
+						break
+			if not bad:
+				for i in c['sample']:
+					one = _run_query(fmt, ['--no-progress', os.path.join(gdir, ids[i] + '.fasta.gz')], 1)
+					if one[0] != 'ok' or len(one[1]) != 1:
+						bad = f'singleton query of {ids[i]} failed: {one}'
+					elif one[1][0][2] != sig[1][i][2] or one[1][0][0] != ids[i]:
+						bad = f'genome {ids[i]} queried alone differs from its row {i} in the batch of {len(ids)}'
+					if bad:
+						break
+			if bad:
+				ctx.violation('bundled', c, bad, impl=None if sig[0] != 'ok' else [r[0] for r in sig[1]], spec=ids)
+	finally:
+		os.chdir(_S['cwd'])
 
 
 def finish(ctx):
@@ -569,7 +1000,7 @@ def _timed(name, fn):
 
 
 KINDS = {'label': _timed('label', k_label), 'files': _timed('files', k_files), 'cli': _timed('cli', k_cli),
-         'api': _timed('api', k_api)}
+         'api': _timed('api', k_api), 'bundled': _timed('bundled', k_bundled)}
 
 
 # ------------------------------------------------------------------------------------------------
@@ -593,6 +1024,15 @@ def _rand_lf(rng):
 
 def _plain(g):
 	return dict(g=g, dir='', stem=f'genome{g}', ext='.fasta', gz=False)
+
+
+FLAT_BASES = ['A', 'my genome ', 'a,b', 'GCF_000.', 'x.fa.', '-dash', 'gén', '.hid', 'q"']
+
+
+def _flat_input(rng):
+	"""an input of the 'flat' cases: all files share one directory, so the genome's index is part of the stem"""
+	g = rng.randrange(NGX)
+	return dict(g=g, dir='', stem=rng.choice(FLAT_BASES) + str(g), ext=rng.choice(FASTA_EXT + ['', '.txt']), gz=rng.random() < 0.5)
 
 
 def generate(ctx):
@@ -697,6 +1137,146 @@ def generate(ctx):
 		yield 'cli', c
 		ctx.count('stream:cli-random')
 
+	# ---- 5a. cli: genomes of other classes (no k-mer at all: empty file, header only, too short; a reference genome itself)
+	for n in range(ctx.pick(10, 60)):
+		k = rng.choice([2, 3, 4, 5])
+		gs = [rng.randrange(NG, NGX)] + [rng.randrange(NGX) for _ in range(k - 1)]
+		rng.shuffle(gs)
+		if n == 0:
+			gs = list(range(NG, NGX)) + [0]
+		inputs = [_rand_input(rng, g) for g in gs]
+		c = dict(channel=['pos', 'list', 'sig'][n % 3], inputs=inputs, cores=rng.choice([None, 1, 2, 3]), progress=rng.random() < 0.5,
+		         fmt=['csv', 'json', 'archive'][(n // 3) % 3])
+		if c['channel'] == 'pos':
+			c['form'] = rng.choice(['abs', 'dot', 'rel', 'reldot'])
+		elif c['channel'] == 'list':
+			c['lf'] = _rand_lf(rng)
+		else:
+			c['inputs'] = [_plain(g) for g in gs]
+			c['ids'] = [f'x{m}-{g}' for m, g in enumerate(gs)]
+		yield 'cli', c
+		ctx.count('stream:cli-genome-classes')
+
+	# ---- 5b. cli: bare file names, the working directory holds the files (and is the default base directory of the list)
+	for n in range(ctx.pick(12, 60)):
+		k = rng.choice([1, 2, 3, 4, 6])
+		inputs = [_flat_input(rng) for _ in range(k)]
+		if k >= 3 and rng.random() < 0.4:
+			inputs[-1] = dict(inputs[0])
+		c = dict(channel=['pos', 'list'][n % 2], flat=True, inputs=inputs, cores=rng.choice([None, 1, 2, 4]), progress=rng.random() < 0.5,
+		         fmt=rng.choice(['csv', 'json', 'archive']))
+		if c['channel'] == 'pos':
+			c['form'] = rng.choice(['bare', 'bare', 'dotbare'])
+			if c['form'] == 'bare' and any(_name(i).startswith('-') for i in inputs):
+				c['call'] = dict(ddash=True)
+			elif rng.random() < 0.3:
+				c['call'] = dict(ddash=True)
+		else:
+			c['lf'] = dict(_rand_lf(rng), ldir=rng.choice(['default', 'default', 'dot', 'dotslash', 'abs']))
+		yield 'cli', c
+		ctx.count('stream:cli-flat-cwd')
+
+	# ---- 5c. cli: the same command written differently (long options, --opt=value, -oVALUE, options after / between the
+	#      positional arguments, no -f, no progress flag, database through --db / the environment, list file on stdin,
+	#      --strict / --no-strict: compared with the singleton run under the same flag)
+	for n in range(ctx.pick(18, 120)):
+		k = rng.choice([2, 3, 4])
+		inputs = [_rand_input(rng) for _ in range(k)]
+		ch = ['pos', 'list', 'sig'][n % 3]
+		call = dict(spell=['long', 'eq', 'attached', 'short'][n % 4], db=['long', 'eq', 'env', 'short'][(n // 2) % 4])
+		c = dict(channel=ch, inputs=inputs, cores=rng.choice([None, 2, 3]), progress=rng.choice([True, False, 'default', 'default']),
+		         fmt=rng.choice(['csv', 'json', 'archive']), call=call)
+		if rng.random() < 0.35:
+			c['fmt'], call['omit_fmt'] = 'csv', True
+		if rng.random() < 0.4:
+			c['strict'] = rng.random() < 0.6
+		if ch == 'pos':
+			c['form'] = rng.choice(['abs', 'dot', 'rel', 'reldot'])
+			call['order'] = rng.choice(['first', 'last', 'split'])
+		elif ch == 'list':
+			c['lf'] = _rand_lf(rng)
+			c['stdin_list'] = rng.random() < 0.5
+		else:
+			c['inputs'] = [_plain(i['g']) for i in inputs]
+			c['ids'] = [f'id {m}' for m in range(k)]
+		yield 'cli', c
+		ctx.count('stream:cli-call-forms')
+
+	# ---- 5d. cli: -c 5..16 also in the quick tier
+	for cores in ctx.pick([16, rng.randint(5, 15)], []):
+		ch = rng.choice(['pos', 'list'])
+		c = dict(channel=ch, inputs=batch6[:rng.randint(2, 6)], cores=cores, progress=rng.random() < 0.5, fmt=rng.choice(['csv', 'json', 'archive']))
+		if ch == 'pos':
+			c['form'] = 'abs'
+		else:
+			c['lf'] = dict(ldir='abs')
+		yield 'cli', c
+		ctx.count('stream:cli-cores-high')
+
+	# ---- 5e. cli: signature files of other make: written through the Python API (integer ids, 16/32/64-bit values, metadata)
+	#      or by `signatures create` without -i (ids derived from the file names)
+	for n in range(ctx.pick(8, 40)):
+		k = rng.choice([1, 2, 3, 5])
+		gs = [rng.randrange(NGX) for _ in range(k)]
+		c = dict(channel='sig', inputs=[_plain(g) for g in gs], cores=rng.choice([None, 1, 3]), progress=rng.random() < 0.5,
+		         fmt=['csv', 'json', 'archive'][n % 3])
+		if n % 4 == 3:
+			c['sig'] = dict(how='noids')
+			c['ids'] = [f'genome{g}' for g in gs]
+		else:
+			idkind = ['int', 'str', 'int'][n % 3]
+			c['sig'] = dict(how='api', idkind=idkind, dtype=rng.choice(['u2', 'u4', 'u8', 'i8']), meta=rng.random() < 0.5)
+			if idkind == 'int':
+				c['ids'] = [rng.choice([0, 7, 10 ** 12, 3]) + 100 * m for m in range(k)]
+				if k >= 2 and rng.random() < 0.3:
+					c['ids'][1] = c['ids'][0]
+			else:
+				c['ids'] = [rng.choice(['7', 'x/y.fasta.gz', ' lead', 'naïve', '']) + f'#{m}' for m in range(k)]
+		yield 'cli', c
+		ctx.count('stream:cli-sig-variants')
+
+	# ---- 5f. cli: large batches
+	for n in range(ctx.pick(2, 6)):
+		k = rng.randint(24, 40)
+		inputs = [_rand_input(rng, rng.randrange(NGX)) for _ in range(k)]
+		c = dict(channel=['pos', 'list'][n % 2], inputs=inputs, cores=rng.choice([None, 3]), progress=rng.random() < 0.5, fmt=['json', 'csv'][n % 2])
+		if c['channel'] == 'pos':
+			c['form'] = rng.choice(['abs', 'rel'])
+		else:
+			c['lf'] = _rand_lf(rng)
+		yield 'cli', c
+		ctx.count('stream:cli-large-batch')
+
+	# ---- 5g. cli: a process of its own, rows on the standard output (no -o), progress display on (it goes to stderr)
+	for n in range(ctx.pick(2, 9)):
+		k = rng.choice([2, 3])
+		inputs = [_rand_input(rng) for _ in range(k)]
+		ch = ['pos', 'list', 'sig'][n % 3]
+		c = dict(channel=ch, inputs=inputs, cores=[2, None, 1][n % 3], progress=['default', True, False][n % 3], fmt=['csv', 'json', 'archive'][n % 3],
+		         call=dict(proc=True, db=['env', 'short', 'long'][n % 3], omit_fmt=n % 3 == 0))
+		if ch == 'pos':
+			c['form'] = 'rel'
+		elif ch == 'list':
+			c['lf'] = _rand_lf(rng)
+			c['stdin_list'] = True
+		else:
+			c['inputs'] = [_plain(i['g']) for i in inputs]
+			c['ids'] = [f'p{m}' for m in range(k)]
+		yield 'cli', c
+		ctx.count('stream:cli-process-stdout')
+
+	# ---- 5h. the repository's own signature file (50 ids) against the 50 genome files it was computed from
+	nb = len(_bundled_ids())
+	for n in range(ctx.pick(2, 6)):
+		perm = list(range(nb))
+		if n % 2 == 0:
+			rng.shuffle(perm)
+		else:
+			perm = [rng.randrange(nb) for _ in range(rng.randint(5, 20))]
+		yield 'bundled', dict(fmt=['csv', 'json', 'archive'][n % 3], perm=perm, sample=rng.sample(range(nb), ctx.pick(3, 8)),
+		                      cores=rng.choice([None, 2]), progress=n % 2 == 1)
+		ctx.count('stream:bundled-sigfile')
+
 	# ---- 6. api: chunk sizes -----------------------------------------------------------------------------
 	chunks = ctx.pick([None, 1, 7, 106, 212, 213, 214, 1000], [None, 1, 2, 3, 7, 50, 106, 107, 212, 213, 214, 1000])
 	for n, cs in enumerate(chunks):
@@ -705,6 +1285,43 @@ def generate(ctx):
 			yield 'api', dict(gs=gs, chunksize=cs, via=via)
 			ctx.count('stream:api-chunks')
 
+	# ---- 6a. api: other call forms of query / query_parse (see _api_call): random chunk sizes, the chunk size as NumPy
+	#      integer / keyword / positional field, inputs as QueryInput / SequenceFile / tuple / mixed / absent, the query
+	#      signatures as list / tuple / SignatureList / SignatureArray / index view / file-backed collection in 16/32/64 bits,
+	#      every exporter, progress arguments, a QueryParams object and a parse_kw dict shared by two calls, genomes
+	#      without k-mers
+	nref = 213
+	conts = ['pylist', 'tuple', 'SignatureList', 'SignatureArray', 'view', 'hdf5']
+	for n in range(ctx.pick(40, 300)):
+		k = rng.choice([1, 2, 3, 4, 6])
+		gs = [rng.randrange(NGX) for _ in range(k)]
+		cs = rng.choice([None, 1, 2, rng.randint(1, 30), rng.randint(1, nref + 3), nref - 1, nref, nref + 1, 10 ** 6])
+		c = dict(gs=gs, chunksize=cs, via=['query', 'query', 'parse'][n % 3], export=['json', 'csv', 'archive'][n % 3 if n % 2 else (n // 2) % 3])
+		c['cs_as'] = rng.choice(['int', 'np', 'kw', 'positional'])
+		c['inputs_as'] = rng.choice(['str', 'tuple', 'none'] if c['via'] == 'parse' else ['str', 'QueryInput', 'SequenceFile', 'mixed', 'tuple', 'none'])
+		if c['via'] == 'query':
+			c['container'] = conts[(n // 3) % len(conts)]
+			c['dtype'] = rng.choice(['u2', 'u4', 'u8', 'u8'])
+		if rng.random() < 0.4:
+			c['progress'] = rng.choice(['click', 'test', 'false', 'config'])
+		if c['cs_as'] == 'int' and rng.random() < 0.6:
+			c['reuse'] = True
+		yield 'api', c
+		ctx.count('stream:api-call-forms')
+
+	# ---- 6b. files: other call forms of get_sequence_files (strings / tuple / pure paths, the list file as a path, the base
+	#      directory as a pathlib path, positional arguments)
+	for n in range(ctx.pick(400, 4000)):
+		flags = dict(strip_dir=rng.random() < 0.8, strip_ext=rng.random() < 0.8, positional_call=rng.random() < 0.3)
+		if n % 2 == 0:
+			ex = [''.join(rng.choice(ptoks) for _ in range(rng.randint(1, 6))) for _ in range(rng.randint(1, 4))]
+			yield 'files', dict(explicit=ex, text=None, ldir='.', explicit_as=rng.choice(['str', 'tuple', 'PurePath']), **flags)
+		else:
+			text = ''.join(rng.choice(ltoks) for _ in range(rng.randint(0, 10)))
+			yield 'files', dict(explicit=[], text=text, ldir=rng.choice(['.', 'ld', '/abs/dir', 'ld/', '', 'a/../b', './x']),
+			                    lf_as=rng.choice(['str', 'Path', 'handle']), ldir_as=rng.choice(['str', 'Path']), **flags)
+		ctx.count('stream:files-call-forms')
+
 	# ---- 7. malformed ------------------------------------------------------------------------------------
 	yield 'cli', dict(channel='list', inputs=[], lf=dict(ldir='abs', blanks=True), fmt='csv', expect_error=True)
 	yield 'cli', dict(channel='pos', inputs=[], form='abs', fmt='csv', expect_error=True)
@@ -712,3 +1329,11 @@ def generate(ctx):
 		yield 'api', dict(gs=[0, 1], chunksize=cs, via='parse')
 	yield 'api', dict(gs=[], chunksize=10, via='query')
 	ctx.count('stream:malformed', 6)
+	# two input channels at once (mutually exclusive: otherwise some of the inputs named on the command line get no row);
+	# a signature file without signatures
+	two = [_plain(1), _plain(4)]
+	yield 'cli', dict(channel='pos', inputs=two, form='abs', fmt='csv', also_sig=dict(gs=[2, 0], ids=['s2', 's0']), expect_error=True)
+	yield 'cli', dict(channel='list', inputs=two, lf=dict(ldir='abs'), fmt='json', also_sig=dict(gs=[2], ids=['s2']), expect_error=True)
+	yield 'cli', dict(channel='pos', inputs=two, form='abs', fmt='csv', also_list=True, expect_error=True)
+	yield 'cli', dict(channel='sig', inputs=[], ids=[], sig=dict(how='api', idkind='str', dtype='u8'), fmt='csv', expect_error=True)
+	ctx.count('stream:malformed-channels', 4)
